@@ -600,10 +600,7 @@ pub fn execute(prop: &str, sc: &E2eScript, opts: &ExecOpts) -> Outcome {
                         out.violate(prop, "scenario-timeout", "pubsub-e2e", format!("the exchange did not finish within {} virtual seconds", budget.as_secs()));
                     }
                 }
-                Some(Err(e)) => {
-                    out.inconclusive = true;
-                    out.log.push(format!("setup error: {e:#}"));
-                }
+                Some(Err(e)) => setup_failed(&mut out, prop, "pubsub-e2e", &sc.net, e),
                 Some(Ok(reports)) => {
                     for (i, rep) in reports.iter().enumerate() {
                         let spec = &sc.streams[i];
